@@ -291,12 +291,6 @@ func (r *Run) examineCrashes() {
 					}
 				}
 				ks := r.observeKey(bn, kn)
-				if k := cp.pre.Buckets[bn]; k != nil && k.Keys[kn] != nil && k.Keys[kn].Indet {
-					continue
-				}
-				if k := post.Buckets[bn]; k != nil && k.Keys[kn] != nil && k.Keys[kn].Indet {
-					continue
-				}
 				// Whatever a kill leaves of a key, the store describes what it
 				// serves: the ETag is the MD5 of the bytes of the same answer,
 				// and the listing shows that size and ETag.  (Atomicity - which
@@ -312,6 +306,12 @@ func (r *Run) examineCrashes() {
 						r.fail("crash.coherent", fmt.Sprintf("after a kill the listing shows another size or ETag for an object than a read returns (in-flight %s) %s", inflightKind(cp), r.bctx()),
 							fmt.Sprintf("%d|\"%s\"", ks.Size, ks.MD5), fmt.Sprintf("%s: %s/%q listed %q", cp.where, bn, kn, l))
 					}
+				}
+				if k := cp.pre.Buckets[bn]; k != nil && k.Keys[kn] != nil && k.Keys[kn].Indet {
+					continue
+				}
+				if k := post.Buckets[bn]; k != nil && k.Keys[kn] != nil && k.Keys[kn].Indet {
+					continue
 				}
 				okState := entityMatches(ks, ePre) || entityMatches(ks, ePost)
 				if inPre && !inPost {
